@@ -109,6 +109,14 @@ def strategy(tier):
     return case()
 
 
+def enumerate_cases(tier):
+    """Frozen-core active spaces with the differentiable Hartree-Fock back-end (the core's mean field enters the one-electron integrals
+    only there), plus the same space through PySCF: fixed representatives so that every quick run contains them."""
+    for active, method, mapping, taper in (([2, 2], "dhf", "jordan_wigner", False), ([2, 3], "dhf", "parity", True), ([2, 3], "pyscf", "jordan_wigner", False)):
+        yield {"mol": "LiH", "symbols": ["Li", "H"], "charge": 0, "geom": [[0.0, 0.0, 0.0], [0.0, 0.0, 1.57]], "basis": "sto-3g", "active": active,
+               "method": method, "mapping": mapping, "iface": "molecule-angstrom", "wires": None, "taper": taper}
+
+
 # ----------------------------------------------------------------------------------------------------------------
 # reference
 # ----------------------------------------------------------------------------------------------------------------
